@@ -1268,6 +1268,140 @@ Plan gen_sweep_plan(const std::string &property, const std::string &profile, uin
     return p;
 }
 
+// allocsweep (C05, C12): the allocation-failure point is enumerated, not sampled. For every
+// conversion pair the k-th allocation of the conversion is failed for k = 1..ALLOC_K_CONV;
+// for every stack the k-th allocation of a copy construction, copy assignment, load,
+// load-and-assign and (where offered) construction from a moved backend is failed for
+// k = 1..ALLOC_K_OWN. Each plan then repeats the operation without a fault (it must succeed:
+// progress once faults stop), so the model comparison and the leak accounting see both the
+// failed and the repaired state.
+constexpr int ALLOC_K_CONV = 40, ALLOC_K_OWN = 6;
+struct AllocItem {
+    int kind; // 0 conversion, 1 CopyCtor, 2 CopyAssign, 3 Load, 4 LoadAssign, 5 Wrap
+    int dst, src;
+};
+std::vector<AllocItem> alloc_items(bool thorough, const Disabled &dis)
+{
+    std::vector<AllocItem> v;
+    auto in_tier = [&](int s) { return thorough || g_stacks[s].tier == 0; };
+    for (int k = 0; k < g_nconv; ++k) {
+        int d = g_conv_pairs[k][0], s = g_conv_pairs[k][1];
+        if (in_tier(d) && in_tier(s) && !dis.core(g_stacks[d]) && !dis.core(g_stacks[s]) && !dis.conv(g_stacks[d], g_stacks[s]))
+            v.push_back(AllocItem{0, d, s});
+    }
+    for (int s = 0; s < g_nstacks; ++s) {
+        if (!in_tier(s) || dis.core(g_stacks[s]) || g_stacks[s].device || g_stacks[s].shape == SHAPE_NONE)
+            continue;
+        v.push_back(AllocItem{1, s, s});
+        v.push_back(AllocItem{2, s, s});
+        if (!dis.io(g_stacks[s])) {
+            v.push_back(AllocItem{3, s, s});
+            v.push_back(AllocItem{4, s, s});
+        }
+    }
+    for (int k = 0; k < g_nwrap; ++k) {
+        int o = g_wrap_pairs[k][0], i = g_wrap_pairs[k][1];
+        if (in_tier(o) && in_tier(i) && !dis.core(g_stacks[o]) && !dis.core(g_stacks[i]) &&
+            !dis.s.count(std::string(g_stacks[o].id) + ":wrap:" + g_stacks[i].id))
+            v.push_back(AllocItem{5, o, i});
+    }
+    return v;
+}
+uint64_t alloc_total(bool thorough, const Disabled &dis)
+{
+    uint64_t t = 0;
+    for (auto &it : alloc_items(thorough, dis))
+        t += it.kind == 0 ? ALLOC_K_CONV : ALLOC_K_OWN;
+    return t;
+}
+Plan gen_alloc_plan(const std::string &property, uint64_t seed, uint64_t index, bool thorough, const Disabled &dis)
+{
+    Plan p;
+    p.property = property;
+    p.profile = "allocsweep";
+    p.seed = seed;
+    Rng rk(seed);
+    p.nslots = 3;
+    p.getbuf = 16;
+    p.putbuf = 64;
+    p.vmode = VAL_ANY;
+    auto items = alloc_items(thorough, dis);
+    uint64_t total = alloc_total(thorough, dis);
+    if (!total)
+        return p;
+    index %= total;
+    const AllocItem *it = nullptr;
+    long k = 1;
+    for (auto &x : items) {
+        uint64_t n = x.kind == 0 ? ALLOC_K_CONV : ALLOC_K_OWN;
+        if (index < n) {
+            it = &x;
+            k = (long)index + 1;
+            break;
+        }
+        index -= n;
+    }
+    const StackDesc &sd = g_stacks[it->src];
+    auto mk = [&](int kind, int a, int b) {
+        Op op;
+        op.kind = kind;
+        op.a = a;
+        op.b = b;
+        op.vseed = rk.next() & 0xffffffffffffull;
+        return op;
+    };
+    Op c = mk(OP_CONSTRUCT, 0, 0);
+    c.stack = it->src;
+    for (int d = 0; d < sd.N; ++d)
+        c.ext.push_back((size_t)(2 + (d + (int)(seed % 3)) % 3)); // 2..4 per axis, non-square
+    p.ops.push_back(c);
+    auto faulted_then_clean = [&](Op op) {
+        Op f = op;
+        f.fkind = F_ALLOC;
+        f.fn = k;
+        p.ops.push_back(f);
+        p.ops.push_back(op);
+    };
+    switch (it->kind) {
+    case 0: {
+        Op cv = mk(OP_CONVERT_COPY, 1, 0);
+        cv.stack = it->dst;
+        faulted_then_clean(cv);
+        break;
+    }
+    case 1:
+        faulted_then_clean(mk(OP_COPY_CTOR, 1, 0));
+        break;
+    case 2: {
+        Op c2 = mk(OP_CONSTRUCT, 1, 0); // a target of another size
+        c2.stack = it->src;
+        for (int d = 0; d < sd.N; ++d)
+            c2.ext.push_back((size_t)(1 + d % 2));
+        p.ops.push_back(c2);
+        faulted_then_clean(mk(OP_COPY_ASSIGN, 1, 0));
+        break;
+    }
+    case 3:
+    case 4: {
+        p.ops.push_back(mk(OP_DUMP, 0, 0));
+        if (it->kind == 4)
+            p.ops.push_back(mk(OP_COPY_CTOR, 1, 0));
+        Op l = mk(it->kind == 3 ? OP_LOAD : OP_LOAD_ASSIGN, 1, 0);
+        l.stack = -1;
+        faulted_then_clean(l);
+        break;
+    }
+    default: {
+        Op w = mk(OP_WRAP, 1, 0);
+        w.stack = it->dst;
+        faulted_then_clean(w);
+        break;
+    }
+    }
+    p.ops.push_back(mk(OP_WRITE, 1, 0)); // the result is an independent value
+    return p;
+}
+
 // ownsweep (C12): every sequence of a bounded length over a 20-symbol alphabet of ownership
 // operations on two slots, for a handful of representative stacks. The first operation is
 // always Construct(slot 0); quick: 3 further operations, thorough: 4.
@@ -1409,6 +1543,8 @@ Plan gen_plan(const std::string &property, const std::string &profile, uint64_t 
 {
     if (profile == "ownsweep")
         return gen_own_plan(property, seed, index, thorough, dis);
+    if (profile == "allocsweep")
+        return gen_alloc_plan(property, seed, index, thorough, dis);
     if (profile == "convsweep" || profile == "rtsweep")
         return gen_sweep_plan(property, profile, seed, index, thorough, dis);
     Plan p;
@@ -1934,6 +2070,8 @@ int main(int argc, char **argv)
         uint64_t total = 0;
         if (profile == "ownsweep")
             total = own_total(thorough, dis);
+        else if (profile == "allocsweep")
+            total = alloc_total(thorough, dis);
         else
             sweep_items(profile, thorough, dis, total);
         std::printf("SWEEP %llu\n", (unsigned long long)total);
